@@ -3,7 +3,7 @@
     [e] ranges over ALL environments: any working directory, any built-in directory and,
     above all, ANY pair of predicates [e_is_file] / [e_exists] — i.e. every subset of the
     candidate locations, every other content of the disk.  Nothing is bounded. *)
-From PV Require Import Loader LoaderProofs.
+From PV Require Import Loader LoaderProofs GenC19 GenC19Proofs.
 Open Scope string_scope.
 
 (** ** Look-up order *)
@@ -20,7 +20,7 @@ Theorem C19_first_existing : forall e name parent,
   match get_pipeline_path e name parent with
   | Ok p => exists pre d post,
         documented_order e parent = (pre ++ d :: post)%list /\
-        p = norm_abs (joinpath d fname) /\
+        p = resolve (e_cwd e) (joinpath d fname) /\
         e_is_file e (joinpath d fname) = true /\
         Forall (fun d' => e_is_file e (joinpath d' fname) = false) pre
   | Err n m => n = PNF /\ m = not_found_msg fname (search_locations e parent) /\
@@ -218,6 +218,79 @@ Theorem C19_cached_lookup : forall e st l k name parent st' d,
 Proof. exact cached_lookup. Qed.
 Print Assumptions C19_cached_lookup.
 
+(** * Tie B: the model is the current source
+    Gen/GenC19.v is regenerated from the Python source on every run (tools/py2coq_c19.py);
+    these theorems identify its definitions with the model the theorems above are about, for
+    all inputs.  [gen_path e repo] is the generated [get_pipeline_path] with the pathlib
+    primitives instantiated by the model's (see Proofs/GenC19Proofs.v). *)
+
+(** pypyr/loaders/file.py get_pipeline_path + find_pipeline: absolute test, parent conditions,
+    the order parent / cwd / cwd/pipelines / built-in, [is_file] as the existence test, first
+    hit wins, both error texts — for every environment whose built-in directory is the one the
+    module computes ([Path(__file__).parents[1] / 'pipelines']) *)
+Theorem C19_source_get_pipeline_path_is_model : forall e repo name parent,
+  e_builtin e = default_builtin repo ->
+  gen_path e repo name parent = get_pipeline_path e name parent.
+Proof. exact gen_get_pipeline_path_is_model. Qed.
+Print Assumptions C19_source_get_pipeline_path_is_model.
+
+Theorem C19_source_find_pipeline_is_model : forall e fname dirs,
+  gen_find_pipeline (e_is_file e) (resolve (e_cwd e)) joinpath fname dirs =
+  match find_first (e_is_file e) fname (map fst dirs) with
+  | Some p => Ok (resolve (e_cwd e) p)
+  | None => Err PNF (not_found_msg fname (map fst dirs))
+  end.
+Proof. exact gen_find_pipeline_is_model. Qed.
+Print Assumptions C19_source_find_pipeline_is_model.
+
+(** module-level directories of the file loader *)
+Theorem C19_source_search_roots_is_model : forall e repo,
+  gen_cwd_pipelines_dir (e_cwd e) (e_subdir e) joinpath = cwd_pipelines e /\
+  gen_builtin_pipelines_dir repo joinpath = default_builtin repo /\
+  gen_config_default_loader = FILE_LOADER /\ gen_file_loader_name = FILE_LOADER.
+Proof. intros e repo. repeat split. Qed.
+Print Assumptions C19_source_search_roots_is_model.
+
+(** get_pipeline_definition / load_pipeline_from_file: look-up, add_sys_path(path.parent),
+    PipelineFileInfo(name=path.name, parent=path.parent, loader=__name__) with the cascading
+    defaults of pipedef.py *)
+Theorem C19_source_file_loader_is_model : forall e repo name parent st,
+  e_builtin e = default_builtin repo ->
+  gen_get_pipeline_definition repo (e_cwd e) (e_subdir e) (e_is_file e) (e_exists e) is_abs
+      (resolve (e_cwd e)) dirname basename text_id joinpath String.eqb (add_sys_path e) name parent st
+  = load_pipeline e st FILE_LOADER LFile name parent.
+Proof. exact gen_get_pipeline_definition_is_model. Qed.
+Print Assumptions C19_source_file_loader_is_model.
+
+(** pypyr/steps/pype.py get_arguments (loader / pyDir / resolveFromParent / parent) and the
+    fields run_step passes on to the child Pipeline and to load_and_run_pipeline *)
+Theorem C19_source_pype_cascade_is_model : forall info o,
+  gen_get_arguments info o = (child_loader info o, o_pydir o, child_parent info o) /\
+  gen_run_step_request info o = (child_loader info o, o_pydir o, child_parent info o).
+Proof. intros info o. split; [apply gen_get_arguments_is_model|apply gen_run_step_request_is_model]. Qed.
+Print Assumptions C19_source_pype_cascade_is_model.
+
+(** Pipeline.load_and_run_pipeline: py_dir goes to add_sys_path first (when truthy), then
+    loader, name and parent reach the loader unchanged; a root pipeline has no parent *)
+Theorem C19_source_load_and_run_is_model : forall e pydir loader name parent sys,
+  gen_load_and_run_pipeline (add_sys_path e) pydir loader name parent sys
+  = (pydir_sys e sys pydir, (loader, name, parent)) /\ gen_root_parent = PNone.
+Proof. intros. split; [apply gen_load_and_run_pipeline_is_model|reflexivity]. Qed.
+Print Assumptions C19_source_load_and_run_is_model.
+
+(** loadercache: default loader, the (parent, name) cache key, wrapping of a bare mapping *)
+Theorem C19_source_loadercache_is_model : forall parent name loader,
+  gen_cache_key parent name = cache_key parent name /\
+  gen_pype_loader_name gen_config_default_loader loader = effective_loader loader.
+Proof. intros. split; [reflexivity|apply gen_pype_loader_name_is_model]. Qed.
+Print Assumptions C19_source_loadercache_is_model.
+
+Theorem C19_source_bare_mapping_is_model : forall e st lname name parent path,
+  get_pipeline_path e name parent = Ok path ->
+  load_pipeline e st lname LBare name parent = Ok (st, gen_wrap_bare_mapping lname name parent path).
+Proof. exact gen_wrap_bare_mapping_is_model. Qed.
+Print Assumptions C19_source_bare_mapping_is_model.
+
 (** * Non-vacuity: concrete layouts, evaluated *)
 
 Definition leafp (id : string) : pipe := mkpipe id false None [].
@@ -256,7 +329,7 @@ Example C19_chain_nonvacuous :
       ["m"; "/w/par/m1.py"];
       ["f"; "par"; "leaf.yaml"; FILE_LOADER; "P"; "/w/par"; "true"; "true"; "/w/par/leaf.yaml"];
       ["ok"]; ["syspath"; "/w/par"];
-      ["env"; "/w/cwd"; "/w/cwd/pipelines"; "/R"; FILE_LOADER]].
+      ["env"; "/w/cwd"; "/w/cwd/pipelines"; "/R/pypyr/pipelines"; FILE_LOADER]].
 Proof. vm_compute. reflexivity. Qed.
 
 Example C19_dir_on_sys_path_nonvacuous :
